@@ -120,3 +120,8 @@ func (o *offsetCSM) Update(es []dbsm.Entry) ([]dbsm.Entry, error) {
 	}
 	return out, err
 }
+
+// RunShardIDs / StartedShards / StoppedShards have no native twin (engine-only harnesses).
+func RunShardIDs(nh *dragonboat.NodeHost, ids []uint64) { panic("engine only") }
+func StartedShards(nh *dragonboat.NodeHost) []uint64    { panic("engine only") }
+func StoppedShards(nh *dragonboat.NodeHost) []uint64    { panic("engine only") }
